@@ -1,5 +1,6 @@
 import RawPanelVerif.Lemmas.LifecycleStep
-/-! Invariant C of the lifecycle LTS: per-connection facts (sockets, quit channel, writer goroutine, exit flag). -/
+/-! Invariant C of the lifecycle LTS: per-connection facts (sockets, quit channel, writer goroutine, exit flag,
+reader position, how the connection was lost). -/
 namespace RawPanelVerif.Lifecycle
 
 /-- the head connection is the one currently served and main has not yet closed it -/
@@ -12,6 +13,19 @@ def Phase.preQuit : Phase → Bool
   | .probing | .announcing | .connected | .teardown .quit => true
   | _ => false
 
+/-- the main loop is between two connections, the last one having been reported lost -/
+def Phase.idle : Phase → Bool
+  | .retrySleep | .dialing | .noConnWait => true
+  | _ => false
+
+@[simp] theorem arrived_cons (c : Conn) (f : Bool) :
+    ({ c with rx := f :: c.rx } : Conn).arrived = c.arrived + (if f then 1 else 0) := by
+  cases f <;> simp [Conn.arrived]
+
+theorem partial_cons (c : Conn) (f : Bool) :
+    ({ c with rx := f :: c.rx } : Conn).partial = (if f then 0 else c.partial + 1) := by
+  cases f <;> simp [Conn.partial, partialOf]
+
 /-- what holds of the connection at index `i` (0 = current) in a state with main-loop phase `ph` -/
 structure Good (ph : Phase) (i : Nat) (c : Conn) : Prop where
   done : (i > 0 ∨ ph.serving = false) → c.closed = true ∧ c.quit = true
@@ -21,24 +35,33 @@ structure Good (ph : Phase) (i : Nat) (c : Conn) : Prop where
   closedExit : i = 0 → ph.serving = true → c.closed = true → c.exit = true
   exitDone : c.exit = true → c.w = .exited ∧ c.closed = true
   exited : c.w = .exited → c.exit = true ∨ c.quit = true
-  delLe : c.delivered ≤ c.arrived
-  dropped : (i > 0 ∨ (ph ≠ .probing ∧ ph ≠ .announcing ∧ ph ≠ .connected)) → c.exit = false →
-              c.peerClosed = true ∧ c.delivered = c.arrived
+  delLe : c.delivered + (if c.held then 1 else 0) ≤ c.arrived
+  heldConn : c.held = true → i = 0 ∧ ph = .connected
+  dropped : (i > 0 ∨ ph.reading = false) → c.exit = false →
+              (c.peerClosed = true ∨ c.fault = true) ∧ c.delivered = c.arrived ∧ c.held = false
+  lost : (i > 0 ∨ ph.idle = true) → (c.peerClosed = true ∨ c.fault = true)
+  faultLate : c.fault = true → (i > 0 ∨ ph.reading = false)
+  faultOnly : c.fault = true → c.binary = true ∧ 0 < c.partial ∧ c.delivered = c.arrived
 
 def InvC (s : St) : Prop := ∀ i c, s.conns[i]? = some c → Good s.phase i c
 
-theorem invC_init : InvC init := by intro i c h; simp [init] at h
+theorem invC_init (nc rc : Nat) : InvC (initWith nc rc) := by intro i c h; simp [initWith] at h
 
-theorem good_phase_change {ph ph' : Phase} {i : Nat} {c : Conn} (g : Good ph i c)
-    (hs : ph'.serving = false → ph.serving = false)
-    (hq : ph'.preQuit = true → ph.preQuit = true)
-    (hp : ph' = .probing ↔ ph = .probing)
-    (htq : ph' = .teardown .close → ph = .teardown .close)
-    (hs2 : ph'.serving = true → ph.serving = true)
-    (hd : (ph' ≠ .probing ∧ ph' ≠ .announcing ∧ ph' ≠ .connected) → (ph ≠ .probing ∧ ph ≠ .announcing ∧ ph ≠ .connected)) :
+/-- what a change of the main-loop phase alone (connections untouched) has to respect -/
+def phaseStepOk (ph ph' : Phase) : Bool :=
+  decide ((ph'.serving = false → ph.serving = false) ∧ (ph'.preQuit = true → ph.preQuit = true) ∧
+    (ph' = .probing ↔ ph = .probing) ∧ (ph' = .teardown .close → ph = .teardown .close) ∧
+    (ph'.serving = true → ph.serving = true) ∧ (ph'.reading = false → ph.reading = false) ∧
+    (ph'.idle = true → ph.idle = true) ∧ (ph = .connected → ph' = .connected) ∧
+    (ph.reading = false → ph'.reading = false))
+
+theorem good_phase_change {ph ph' : Phase} {i : Nat} {c : Conn} (g : Good ph i c) (h : phaseStepOk ph ph' = true) :
     Good ph' i c := by
-  refine ⟨fun h => g.done (h.imp id hs), fun h1 h2 => g.noQuit h1 (hq h2), fun h1 h2 => g.tdQuit h1 (htq h2), ?_, fun h1 h2 => g.closedExit h1 (hs2 h2),
-    g.exitDone, g.exited, g.delLe, fun h => g.dropped (h.imp id hd)⟩
+  simp only [phaseStepOk, decide_eq_true_eq] at h
+  obtain ⟨hs, hq, hp, htq, hs2, hd, hl, hh, hr⟩ := h
+  refine ⟨fun h => g.done (h.imp id hs), fun h1 h2 => g.noQuit h1 (hq h2), fun h1 h2 => g.tdQuit h1 (htq h2), ?_,
+    fun h1 h2 => g.closedExit h1 (hs2 h2), g.exitDone, g.exited, g.delLe, fun h => ⟨(g.heldConn h).1, hh (g.heldConn h).2⟩,
+    fun h => g.dropped (h.imp id hd), fun h => g.lost (h.imp id hl), fun h => (g.faultLate h).imp id hr, g.faultOnly⟩
   rw [g.unbornIff, hp]
 
 theorem getElem?_set_cases {cs : List Conn} {i j : Nat} {c' d : Conn} (h : (cs.set i c')[j]? = some d) :
@@ -51,170 +74,257 @@ theorem getElem?_set_cases {cs : List Conn} {i j : Nat} {c' d : Conn} (h : (cs.s
   · simp [hij] at h
     exact Or.inr ⟨fun e => hij e.symm, h⟩
 
+/-- the writer goroutine moves on (nothing else of the connection changes) -/
+theorem Good.set_w {ph : Phase} {i : Nat} {c : Conn} (g : Good ph i c) (w' : WSt) (hw : c.w ≠ .unborn) (hw' : w' ≠ .unborn)
+    (h1 : c.exit = true → w' = .exited) (h2 : w' = .exited → c.exit = true ∨ c.quit = true) :
+    Good ph i { c with w := w' } := by
+  refine ⟨g.done, g.noQuit, g.tdQuit, ?_, g.closedExit, fun he => ⟨h1 he, (g.exitDone he).2⟩, h2, g.delLe, g.heldConn, g.dropped,
+    g.lost, g.faultLate, g.faultOnly⟩
+  constructor
+  · intro h; exact absurd h hw'
+  · intro h; exact absurd (g.unbornIff.mpr h) hw
+
+/-- a connection that is not the head one is not affected by what happens to the head and the phase,
+as long as it stays a non-head connection -/
+theorem Good.tail {ph ph' : Phase} {j : Nat} {c : Conn} (g : Good ph (j + 1) c) : Good ph' (j + 1) c := by
+  have hpos : j + 1 > 0 := Nat.succ_pos j
+  refine ⟨fun _ => g.done (Or.inl hpos), by simp, by simp, ?_, by simp, g.exitDone, g.exited, g.delLe, ?_,
+    fun _ he => g.dropped (Or.inl hpos) he, fun _ => g.lost (Or.inl hpos), fun _ => Or.inl hpos, g.faultOnly⟩
+  · rw [g.unbornIff]; simp
+  · intro h; have := (g.heldConn h).1; simp at this
+
 theorem invC_step (ae : Bool) (s s' : St) (l : Lbl) (hi : InvC s) (hs : step ae s l = some s') : InvC s' := by
   cases l with
   | cancel => have := step_cancel hs; subst this; exact hi
+  | offer => have := step_offer hs; subst this; exact hi
+  | consumerStop => have := step_consumerStop hs; subst this; exact hi
+  | consumerResume => have := step_consumerResume hs; subst this; exact hi
+  | tick d => have := step_tick hs; subst this; exact hi
   | dialFail =>
     obtain ⟨hp, rfl⟩ := step_dialFail hs
     intro i c h
-    exact good_phase_change (hi i c h) (by simp [hp, Phase.serving]) (by simp [Phase.preQuit]) (by simp [hp]) (by simp) (by simp [Phase.serving]) (by simp [hp])
+    exact good_phase_change (hi i c h) (by rw [hp]; rfl)
   | noConnTimer =>
-    obtain ⟨hp, rfl⟩ := step_noConnTimer hs
+    obtain ⟨hp, _, rfl⟩ := step_noConnTimer hs
     intro i c h
-    exact good_phase_change (hi i c h) (by simp [hp, Phase.serving]) (by simp [Phase.preQuit]) (by simp [hp]) (by simp) (by simp [Phase.serving]) (by simp [hp])
+    exact good_phase_change (hi i c h) (by rw [hp]; rfl)
+  | noConnDrain =>
+    obtain ⟨hp, _, rfl⟩ := step_noConnDrain hs
+    intro i c h
+    exact good_phase_change (hi i c h) (by rw [hp]; rfl)
   | sleepDone =>
-    obtain ⟨hp, rfl⟩ := step_sleepDone hs
+    obtain ⟨hp, _, rfl⟩ := step_sleepDone hs
     intro i c h
-    exact good_phase_change (hi i c h) (by simp [hp, Phase.serving]) (by simp [Phase.preQuit]) (by simp [hp]) (by simp) (by simp [Phase.serving]) (by simp [hp])
+    exact good_phase_change (hi i c h) (by rw [hp]; rfl)
   | ret =>
     obtain ⟨hp, rfl⟩ := step_ret hs
     intro i c h
-    rcases hp with hp | ⟨hp, _⟩ <;>
-    exact good_phase_change (hi i c h) (by simp [hp, Phase.serving]) (by simp [Phase.preQuit]) (by simp [hp]) (by simp) (by simp [Phase.serving]) (by simp [hp])
+    rcases hp with hp | ⟨hp, _⟩ <;> exact good_phase_change (hi i c h) (by rw [hp]; rfl)
   | onConnect =>
     obtain ⟨hp, rfl⟩ := step_onConnect hs
     intro i c h
-    exact good_phase_change (hi i c h) (by simp [hp, Phase.serving]) (by simp [hp, Phase.preQuit]) (by simp [hp]) (by simp) (by simp [hp, Phase.serving]) (by simp)
+    exact good_phase_change (hi i c h) (by rw [hp]; rfl)
   | readErr =>
-    obtain ⟨c0, rest, hc, hp, hg, rfl⟩ := step_readErr hs
+    obtain ⟨c0, rest, hc, hp, hheld, hg, rfl⟩ := step_readErr hs
     intro i c h
     have g := hi i c h
-    refine ⟨fun hh => g.done (hh.imp id (by simp [Phase.serving])), fun h1 _ => g.noQuit h1 (by simp [hp, Phase.preQuit]),
-      by simp, by rw [g.unbornIff]; simp [hp], fun h1 _ => g.closedExit h1 (by simp [hp, Phase.serving]), g.exitDone, g.exited, g.delLe, ?_⟩
-    intro hh he
-    rcases Nat.eq_zero_or_pos i with h0 | h0
-    · subst h0
+    cases i with
+    | succ j => exact g.tail
+    | zero =>
       rw [hc] at h; simp at h; subst h
-      rcases hg with hg | hg
-      · have := g.closedExit rfl (by simp [hp, Phase.serving]) hg; simp [he] at this
-      · exact hg
-    · exact g.dropped (Or.inl h0) he
+      rw [hp] at g
+      refine ⟨fun hh => g.done (hh.imp id (by simp [Phase.serving])), fun _ _ => g.noQuit rfl (by simp [Phase.preQuit]),
+        by simp, by rw [g.unbornIff]; simp, fun _ _ => g.closedExit rfl (by simp [Phase.serving]), g.exitDone, g.exited, g.delLe,
+        fun hh => by simp [hheld] at hh, ?_, fun hh => by simp [Phase.idle] at hh, fun hf => ?_, g.faultOnly⟩
+      · intro _ he
+        rcases hg with hg | hg
+        · have := g.closedExit rfl (by simp [Phase.serving]) hg; simp [he] at this
+        · exact ⟨Or.inl hg.1, hg.2, hheld⟩
+      · have := g.faultLate hf; simp [Phase.reading] at this
+  | readFault =>
+    obtain ⟨c0, rest, hc, hp, hheld, hbin, hcl, hda, hpa, rfl⟩ := step_readFault hs
+    intro i c h
+    cases i with
+    | succ j => simp at h; exact (hi (j + 1) c (by simp [hc, h])).tail
+    | zero =>
+      simp at h; subst h
+      have g := hi 0 c0 (by simp [hc])
+      rw [hp] at g
+      refine ⟨fun hh => by simp [Phase.serving] at hh, fun _ _ => g.noQuit rfl (by simp [Phase.preQuit]),
+        by simp, by simpa using g.unbornIff, fun _ _ => g.closedExit rfl (by simp [Phase.serving]), g.exitDone, g.exited, g.delLe,
+        fun hh => by simp [hheld] at hh, fun _ _ => ⟨Or.inr rfl, hda, hheld⟩, fun _ => Or.inr rfl, fun _ => Or.inr (by simp [Phase.reading]),
+        fun _ => ⟨hbin, hpa, hda⟩⟩
   | onDisconnect b =>
     obtain ⟨c0, rest, hc, hp, hb, rfl⟩ := step_onDisconnect hs
     intro i c h
     have g := hi i c h
-    have hns : s.phase.serving = false := by simp [hp, Phase.serving]
-    refine ⟨fun _ => g.done (Or.inr hns), ?_, ?_, by rw [g.unbornIff]; cases b <;> simp [hp], ?_, g.exitDone, g.exited, g.delLe,
-      fun _ he => g.dropped (Or.inr (by simp [hp])) he⟩
-    · intro _ hq; cases b <;> simp [Phase.preQuit] at hq
-    · intro _ hq; cases b <;> simp at hq
-    · intro _ hq; cases b <;> simp [Phase.serving] at hq
-  | dialOk =>
+    cases i with
+    | succ j => exact g.tail
+    | zero =>
+      rw [hc] at h; simp at h; subst h
+      rw [hp] at g
+      have hd := g.done (Or.inr (by simp [Phase.serving]))
+      refine ⟨fun _ => hd, ?_, ?_, by rw [g.unbornIff]; cases b <;> simp, ?_, g.exitDone, g.exited, g.delLe, ?_,
+        fun _ he => g.dropped (Or.inr (by simp [Phase.reading])) he, ?_, fun hf => Or.inr (by cases b <;> simp [Phase.reading]), g.faultOnly⟩
+      · intro _ hq; cases b <;> simp [Phase.preQuit] at hq
+      · intro _ hq; cases b <;> simp at hq
+      · intro _ hq; cases b <;> simp [Phase.serving] at hq
+      · intro hh; have := (g.heldConn hh).2; simp at this
+      · intro hh
+        cases b with
+        | true => simp [Phase.idle] at hh
+        | false => exact (g.dropped (Or.inr (by simp [Phase.reading])) hb.symm).1
+  | dialOk bin =>
     obtain ⟨hp, rfl⟩ := step_dialOk hs
     intro i c h
     cases i with
     | zero =>
       simp at h; subst h
-      constructor <;> simp [Phase.serving, Phase.preQuit]
+      constructor <;> simp [Phase.serving, Phase.preQuit, Phase.reading, Phase.idle, Conn.arrived]
     | succ j =>
       simp at h
       have g := hi j c h
-      have hd := g.done (Or.inr (by simp [hp, Phase.serving]))
-      refine ⟨fun _ => hd, by simp, by simp, ?_, by simp, g.exitDone, g.exited, g.delLe, fun _ he => g.dropped (Or.inr (by simp [hp])) he⟩
-      rw [g.unbornIff]; simp [hp]
+      rw [hp] at g
+      have hd := g.done (Or.inr (by simp [Phase.serving]))
+      have hpos : j + 1 > 0 := Nat.succ_pos j
+      refine ⟨fun _ => hd, by simp, by simp, ?_, by simp, g.exitDone, g.exited, g.delLe, ?_,
+        fun _ he => g.dropped (Or.inr (by simp [Phase.reading])) he, fun _ => g.lost (Or.inr (by simp [Phase.idle])),
+        fun _ => Or.inl hpos, g.faultOnly⟩
+      · rw [g.unbornIff]; simp
+      · intro hh; have := (g.heldConn hh).2; simp at this
   | peerClose =>
     obtain ⟨c0, rest, hc, hpc, rfl⟩ := step_peerClose hs
     intro i c h
     cases i with
+    | succ j => simp at h; exact hi (j + 1) c (by simp [hc, h])
     | zero =>
       simp at h; subst h
       have g := hi 0 c0 (by simp [hc])
-      refine ⟨g.done, g.noQuit, g.tdQuit, g.unbornIff, g.closedExit, g.exitDone, g.exited, g.delLe, ?_⟩
-      intro hh he
-      have := g.dropped hh he
-      simp [hpc] at this
-    | succ j => simp at h; exact hi (j + 1) c (by simp [hc, h])
-  | frameComplete =>
-    obtain ⟨c0, rest, hc, hp, hpc, rfl⟩ := step_frameComplete hs
+      exact ⟨g.done, g.noQuit, g.tdQuit, g.unbornIff, g.closedExit, g.exitDone, g.exited, g.delLe, g.heldConn,
+        fun hh he => ⟨Or.inl rfl, (g.dropped hh he).2⟩, fun _ => Or.inl rfl, g.faultLate, g.faultOnly⟩
+  | byteArrive fin =>
+    obtain ⟨c0, rest, hc, hp, hpc, rfl⟩ := step_byteArrive hs
     intro i c h
     cases i with
+    | succ j => simp at h; exact hi (j + 1) c (by simp [hc, h])
     | zero =>
       simp at h; subst h
       have g := hi 0 c0 (by simp [hc])
-      refine ⟨g.done, g.noQuit, g.tdQuit, g.unbornIff, g.closedExit, g.exitDone, g.exited, Nat.le_succ_of_le g.delLe, ?_⟩
-      intro hh he
-      rcases hh with hh | hh
-      · omega
-      · rcases hp with hp | hp <;> simp [hp] at hh
+      have hrd : s.phase.reading = true := by rcases hp with hp | hp <;> simp [hp, Phase.reading]
+      have hnf : c0.fault = false := by
+        cases hf : c0.fault with
+        | false => rfl
+        | true => have := g.faultLate hf; simp [hrd] at this
+      refine ⟨g.done, g.noQuit, g.tdQuit, g.unbornIff, g.closedExit, g.exitDone, g.exited, ?_, g.heldConn, ?_, ?_, ?_, ?_⟩
+      · have := g.delLe; simp only [arrived_cons]; omega
+      · intro hh; simp [hrd] at hh
+      · intro hh; rcases hp with hp | hp <;> simp [hp, Phase.idle] at hh
+      · intro hf; simp [hnf] at hf
+      · intro hf; simp [hnf] at hf
+  | takeFrame =>
+    obtain ⟨c0, rest, hc, hp, hheld, hlt, hcl, rfl⟩ := step_takeFrame hs
+    intro i c h
+    cases i with
     | succ j => simp at h; exact hi (j + 1) c (by simp [hc, h])
+    | zero =>
+      simp at h; subst h
+      have g := hi 0 c0 (by simp [hc])
+      refine ⟨g.done, g.noQuit, g.tdQuit, g.unbornIff, g.closedExit, g.exitDone, g.exited, ?_, fun _ => ⟨rfl, hp⟩, ?_, g.lost,
+        g.faultLate, g.faultOnly⟩
+      · show c0.delivered + 1 ≤ c0.arrived; omega
+      · intro hh; simp [hp, Phase.reading] at hh
   | deliver =>
-    obtain ⟨c0, rest, hc, hp, hlt, hcl, rfl⟩ := step_deliver hs
+    obtain ⟨c0, rest, hc, hp, hheld, hcons, rfl⟩ := step_deliver hs
     intro i c h
     cases i with
+    | succ j => simp at h; exact hi (j + 1) c (by simp [hc, h])
     | zero =>
       simp at h; subst h
       have g := hi 0 c0 (by simp [hc])
-      refine ⟨g.done, g.noQuit, g.tdQuit, g.unbornIff, g.closedExit, g.exitDone, g.exited, hlt, ?_⟩
-      intro hh he
-      rcases hh with hh | hh
-      · omega
-      · simp [hp] at hh
-    | succ j => simp at h; exact hi (j + 1) c (by simp [hc, h])
+      have hnf : c0.fault = false := by
+        cases hf : c0.fault with
+        | false => rfl
+        | true => have := g.faultLate hf; simp [hp, Phase.reading] at this
+      refine ⟨g.done, g.noQuit, g.tdQuit, g.unbornIff, g.closedExit, g.exitDone, g.exited, ?_, by simp, ?_, g.lost,
+        g.faultLate, fun hf => by simp [hnf] at hf⟩
+      · have := g.delLe; simp [hheld] at this; simpa [Conn.arrived] using this
+      · intro hh; simp [hp, Phase.reading] at hh
   | spawnWriter =>
     obtain ⟨c0, rest, hc, hp, rfl⟩ := step_spawnWriter hs
     intro i c h
     cases i with
+    | succ j => simp at h; exact (hi (j + 1) c (by simp [hc, h])).tail
     | zero =>
       simp at h; subst h
       have g := hi 0 c0 (by simp [hc])
-      have hu : c0.w = .unborn := g.unbornIff.mpr ⟨rfl, hp⟩
-      refine ⟨fun hh => ?_, fun _ _ => g.noQuit rfl (by simp [hp, Phase.preQuit]), by simp, by simp,
-        fun _ _ => g.closedExit rfl (by simp [hp, Phase.serving]), ?_, by simp, g.delLe, ?_⟩
-      · simp [Phase.serving] at hh
+      rw [hp] at g
+      have hu : c0.w = .unborn := g.unbornIff.mpr ⟨rfl, rfl⟩
+      refine ⟨fun hh => by simp [Phase.serving] at hh, fun _ _ => g.noQuit rfl (by simp [Phase.preQuit]), by simp, by simp,
+        fun _ _ => g.closedExit rfl (by simp [Phase.serving]), ?_, by simp, g.delLe, ?_, fun hh => by simp [Phase.reading] at hh,
+        fun hh => by simp [Phase.idle] at hh, fun hf => ?_, g.faultOnly⟩
       · intro he; have := (g.exitDone he).1; simp [hu] at this
-      · intro hh; simp at hh
-    | succ j =>
-      simp at h
-      have g := hi (j + 1) c (by simp [hc, h])
-      refine ⟨fun _ => g.done (Or.inl (Nat.succ_pos j)), by simp, by simp, ?_, by simp, g.exitDone, g.exited, g.delLe,
-        fun _ he => g.dropped (Or.inl (Nat.succ_pos j)) he⟩
-      rw [g.unbornIff]; simp
+      · intro hh; have := (g.heldConn hh).2; simp at this
+      · have := g.faultLate hf; simp [Phase.reading] at this
   | closeQuit =>
     obtain ⟨c0, rest, hc, hp, rfl⟩ := step_closeQuit hs
     intro i c h
     cases i with
+    | succ j => simp at h; exact (hi (j + 1) c (by simp [hc, h])).tail
     | zero =>
       simp at h; subst h
       have g := hi 0 c0 (by simp [hc])
-      refine ⟨fun hh => ?_, fun _ hq => ?_, fun _ _ => rfl, by simpa [hp] using g.unbornIff,
-        fun _ _ => g.closedExit rfl (by simp [hp, Phase.serving]), g.exitDone, fun hw => (g.exited hw).imp id (fun _ => rfl), g.delLe,
-        fun _ he => g.dropped (Or.inr (by simp [hp])) he⟩
-      · simp [Phase.serving] at hh
-      · simp [Phase.preQuit] at hq
-    | succ j =>
-      simp at h
-      have g := hi (j + 1) c (by simp [hc, h])
-      refine ⟨fun _ => g.done (Or.inl (Nat.succ_pos j)), by simp, by simp, ?_, by simp, g.exitDone, g.exited, g.delLe,
-        fun _ he => g.dropped (Or.inl (Nat.succ_pos j)) he⟩
-      rw [g.unbornIff]; simp
+      rw [hp] at g
+      refine ⟨fun hh => by simp [Phase.serving] at hh, fun _ hq => by simp [Phase.preQuit] at hq, fun _ _ => rfl,
+        by simpa using g.unbornIff, fun _ _ => g.closedExit rfl (by simp [Phase.serving]), g.exitDone,
+        fun hw => (g.exited hw).imp id (fun _ => rfl), g.delLe, ?_,
+        fun _ he => g.dropped (Or.inr (by simp [Phase.reading])) he, fun hh => by simp [Phase.idle] at hh,
+        fun _ => Or.inr (by simp [Phase.reading]), g.faultOnly⟩
+      intro hh; have := (g.heldConn hh).2; simp at this
   | connClose =>
     obtain ⟨c0, rest, hc, hp, rfl⟩ := step_connClose hs
     intro i c h
     cases i with
+    | succ j => simp at h; exact (hi (j + 1) c (by simp [hc, h])).tail
     | zero =>
       simp at h; subst h
       have g := hi 0 c0 (by simp [hc])
-      -- quit was closed by the previous step: carried as `exited`-independent fact through `noQuit`'s complement
-      refine ⟨fun _ => ⟨rfl, ?_⟩, fun _ hq => ?_, by simp, by simpa [hp] using g.unbornIff, fun _ hq => ?_,
-        fun he => ⟨(g.exitDone he).1, rfl⟩, g.exited, g.delLe, fun _ he => g.dropped (Or.inr (by simp [hp])) he⟩
-      · exact g.tdQuit rfl hp
-      · simp [Phase.preQuit] at hq
-      · simp [Phase.serving] at hq
-    | succ j =>
-      simp at h
-      have g := hi (j + 1) c (by simp [hc, h])
-      refine ⟨fun _ => g.done (Or.inl (Nat.succ_pos j)), by simp, by simp, ?_, by simp, g.exitDone, g.exited, g.delLe,
-        fun _ he => g.dropped (Or.inl (Nat.succ_pos j)) he⟩
-      rw [g.unbornIff]; simp
+      rw [hp] at g
+      refine ⟨fun _ => ⟨rfl, g.tdQuit rfl rfl⟩, fun _ hq => by simp [Phase.preQuit] at hq, by simp, by simpa using g.unbornIff,
+        fun _ hq => by simp [Phase.serving] at hq, fun he => ⟨(g.exitDone he).1, rfl⟩, g.exited, g.delLe, ?_,
+        fun _ he => g.dropped (Or.inr (by simp [Phase.reading])) he, fun hh => by simp [Phase.idle] at hh,
+        fun _ => Or.inr (by simp [Phase.reading]), g.faultOnly⟩
+      intro hh; have := (g.heldConn hh).2; simp at this
   | writerStart i =>
     obtain ⟨c0, hc, hw, rfl⟩ := step_writerStart hs
     intro j d h
     rcases getElem?_set_cases h with ⟨hj, hd⟩ | ⟨_, hd⟩
     · subst hj; subst hd
       have g := hi j c0 hc
-      have hne : ¬ (j = 0 ∧ s.phase = .probing) := fun hh => by have := g.unbornIff.mpr hh; simp [hw] at this
-      refine ⟨g.done, g.noQuit, g.tdQuit, by simpa using hne, g.closedExit, ?_, by simp, g.delLe, g.dropped⟩
-      intro he; have := (g.exitDone he).1; simp [hw] at this
+      exact g.set_w .running (by simp [hw]) (by simp) (fun he => by have := (g.exitDone he).1; simp [hw] at this) (by simp)
+    · exact hi j d hd
+  | writerTake i =>
+    obtain ⟨c0, hc, hw, _, rfl⟩ := step_writerTake hs
+    intro j d h
+    rcases getElem?_set_cases h with ⟨hj, hd⟩ | ⟨_, hd⟩
+    · subst hj; subst hd
+      have g := hi j c0 hc
+      exact g.set_w .writing (by simp [hw]) (by simp) (fun he => by have := (g.exitDone he).1; simp [hw] at this) (by simp)
+    · exact hi j d hd
+  | writeDone i =>
+    obtain ⟨c0, hc, hw, _, rfl⟩ := step_writeDone hs
+    intro j d h
+    rcases getElem?_set_cases h with ⟨hj, hd⟩ | ⟨_, hd⟩
+    · subst hj; subst hd
+      have g := hi j c0 hc
+      exact g.set_w .running (by simp [hw]) (by simp) (fun he => by have := (g.exitDone he).1; simp [hw] at this) (by simp)
+    · exact hi j d hd
+  | writeErr i =>
+    obtain ⟨c0, hc, hw, _, rfl⟩ := step_writeErr hs
+    intro j d h
+    rcases getElem?_set_cases h with ⟨hj, hd⟩ | ⟨_, hd⟩
+    · subst hj; subst hd
+      have g := hi j c0 hc
+      exact g.set_w .running (by simp [hw]) (by simp) (fun he => by have := (g.exitDone he).1; simp [hw] at this) (by simp)
     · exact hi j d hd
   | writerSeesQuit i =>
     obtain ⟨c0, hc, hw, hq, rfl⟩ := step_writerSeesQuit hs
@@ -222,9 +332,7 @@ theorem invC_step (ae : Bool) (s s' : St) (l : Lbl) (hi : InvC s) (hs : step ae 
     rcases getElem?_set_cases h with ⟨hj, hd⟩ | ⟨_, hd⟩
     · subst hj; subst hd
       have g := hi j c0 hc
-      have hne : ¬ (j = 0 ∧ s.phase = .probing) := fun hh => by have := g.unbornIff.mpr hh; simp [hw] at this
-      refine ⟨g.done, g.noQuit, g.tdQuit, by simpa using hne, g.closedExit, ?_, fun _ => Or.inr hq, g.delLe, g.dropped⟩
-      intro he; have := (g.exitDone he).1; simp [hw] at this
+      exact g.set_w .exited (by simp [hw]) (by simp) (fun _ => rfl) (fun _ => Or.inr hq)
     · exact hi j d hd
   | writerSeesCancel i =>
     obtain ⟨c0, hc, hw, _, rfl⟩ := step_writerSeesCancel hs
@@ -233,13 +341,13 @@ theorem invC_step (ae : Bool) (s s' : St) (l : Lbl) (hi : InvC s) (hs : step ae 
     · subst hj; subst hd
       have g := hi j c0 hc
       have hne : ¬ (j = 0 ∧ s.phase = .probing) := fun hh => by have := g.unbornIff.mpr hh; simp [hw] at this
-      refine ⟨fun hh => ⟨rfl, (g.done hh).2⟩, g.noQuit, g.tdQuit, by simpa using hne, fun _ _ _ => rfl, fun _ => ⟨rfl, rfl⟩,
-        fun _ => Or.inl rfl, g.delLe, by simp⟩
+      exact ⟨fun hh => ⟨rfl, (g.done hh).2⟩, g.noQuit, g.tdQuit, by simpa using hne, fun _ _ _ => rfl, fun _ => ⟨rfl, rfl⟩,
+        fun _ => Or.inl rfl, g.delLe, g.heldConn, by simp, g.lost, g.faultLate, g.faultOnly⟩
     · exact hi j d hd
 
 theorem invC_reachable {ae : Bool} {s : St} (h : Reachable ae s) : InvC s := by
   induction h with
-  | init => exact invC_init
+  | init nc rc => exact invC_init nc rc
   | step l _ hs ih => exact invC_step ae _ _ l ih hs
 
 end RawPanelVerif.Lifecycle
